@@ -17,7 +17,7 @@ from ..gen import progs
 PROPERTY = "C11"
 LEVEL = "exploration"
 RULE = ("case = one program x all 32 combinations of {filter_unused_linenum, initialize_vars, default_width32, "
-        "output_dependencies, default_str_storage in {32,80}}: each of the 80 pairs at Hamming distance 1 must differ only by "
+        "output_dependencies, default_str_storage in {32, one of 80/16/255/33/1}}: each of the 80 pairs at Hamming distance 1 must differ only by "
         "the documented delta; CLI cases = program x flag subset of {-l,-z,-D,-w,-s n,-c file}: bytes written must equal "
         "convert(text, mapped options, procname = file stem) with OS-9 line ends; distinct = (program, option pair / flag set); "
         "non-trivial = both members of a pair converted")
@@ -137,8 +137,9 @@ def run_case(case):
     if case["kind"] == "cli":
         return run_cli(case, text, obs)
     outs = {}
+    alt_size = case.get("alt_size", 80)
     for bits in [(a, b, c, d) for a in (0, 1) for b in (0, 1) for c in (0, 1) for d in (0, 1)]:
-        for size in (32, 80):
+        for size in (32, alt_size):
             r = harness.convert(text, **opts_of(bits, size))
             outs[(bits, size)] = r["out"] if r["ok"] else None
     ok = [k for k, v in outs.items() if v is not None]
@@ -160,7 +161,7 @@ def run_case(case):
                 if p:
                     obs["viols"].append({"sig": "C11/delta/" + name, "detail": dict(p, source=text[:700],
                                                                                      options_on=opts_of(bits, size))})
-        if size == 80:
+        if size != 32:
             p = check_pair("default_str_storage", out, outs[(bits, 32)])
             n += 1
             if p:
@@ -192,19 +193,27 @@ def run_cli(case, text, obs):
     opts = {"filter_unused_linenum": False, "initialize_vars": True, "default_str_storage": 32, "output_dependencies": True,
             "default_width32": True, "procname": stem}
     cfg = None
+    LONG = {"--filter-unused-linenum": "-l", "--dont-initialize-vars": "-z", "--dont-output-dependencies": "-D",
+            "--dont-run-width-32": "-w"}
+    SHORT = {"-l": ("filter_unused_linenum", True), "-z": ("initialize_vars", False), "-D": ("output_dependencies", False),
+             "-w": ("default_width32", False)}
     for fl in flags:
-        if fl == "-l":
+        if fl in LONG:
             argv.append(fl)
-            opts["filter_unused_linenum"] = True
-        elif fl == "-z":
+            k, v = SHORT[LONG[fl]]
+            opts[k] = v
+        elif fl in SHORT:
             argv.append(fl)
-            opts["initialize_vars"] = False
-        elif fl == "-D":
+            k, v = SHORT[fl]
+            opts[k] = v
+        elif len(fl) > 2 and fl[0] == "-" and fl[1] != "-" and all("-" + c in SHORT for c in fl[1:]):
+            argv.append(fl)               # combined short flags: -lz
+            for c in fl[1:]:
+                k, v = SHORT["-" + c]
+                opts[k] = v
+        elif fl.startswith("--default-string-storage="):
             argv.append(fl)
-            opts["output_dependencies"] = False
-        elif fl == "-w":
-            argv.append(fl)
-            opts["default_width32"] = False
+            opts["default_str_storage"] = int(fl.split("=")[1])
         elif fl.startswith("-s"):
             argv += ["-s", fl[2:]]
             opts["default_str_storage"] = int(fl[2:])
@@ -286,7 +295,7 @@ _HOOKS = []
 def cases(tier, seed):
     n = 120 if tier == "quick" else 8000
     for i in range(n):
-        yield {"kind": "opts", "seed": seed * 7368787 + i, "sample": i % 60 == 0}
+        yield {"kind": "opts", "seed": seed * 7368787 + i, "sample": i % 60 == 0, "alt_size": [80, 16, 255, 33, 1][i % 5]}
     ex = sorted(glob.glob(os.path.join(boot.REPO, "examples", "*", "*.bas")))
     for p in ex if tier == "thorough" else ex[:6]:
         yield {"kind": "opts", "example": os.path.relpath(p, boot.REPO), "seed": 0}
@@ -294,7 +303,10 @@ def cases(tier, seed):
     base = ["-l", "-z", "-D", "-w"]
     for m in range(16):
         flagsets.append([f for j, f in enumerate(base) if m >> j & 1])
-    extra = [["-s80"], ["-s64", "-D"], ["-c"], ["-c", "-s40", "-l"], ["-s33", "-z", "-w"]]
+    extra = [["-s80"], ["-s64", "-D"], ["-c"], ["-c", "-s40", "-l"], ["-s33", "-z", "-w"], ["-s16"], ["-s1", "-l"], ["-s32"],
+             ["-w", "-z", "-s255", "-l"], ["-w", "-D", "-z", "-l"], ["-D", "-l"], ["-s80", "-s16"], ["-l", "-l"], ["-lz"], ["-wDzl"],
+             ["--filter-unused-linenum"], ["--dont-initialize-vars", "--dont-run-width-32"], ["--dont-output-dependencies", "-l"],
+             ["--default-string-storage=48", "-z"], ["-z", "--default-string-storage=20", "-s70"], ["-c", "-D", "-s16"]]
     stems = ["prog", "my-prog", "A_1", "x9"]
     k = 0
     for fs in flagsets + extra:
